@@ -93,7 +93,7 @@ def budget(tier):
 
 
 def wall_cap(tier):
-    return 400 if tier == "quick" else 1500
+    return 400 if tier == "quick" else 600
 
 
 # -- generation ---------------------------------------------------------------------------------
